@@ -2,6 +2,7 @@ import Huginn.Lemmas.SigText
 import Huginn.Lemmas.SigTextHttp
 import Huginn.Lemmas.SigTextDoc
 import Huginn.Lemmas.SigTextCanon
+import Huginn.Lemmas.SigTextGrammar
 import Huginn.Lemmas.SigTextBundledTcp
 import Huginn.Lemmas.SigTextBundledHttpA
 import Huginn.Lemmas.SigTextBundledHttpB
@@ -157,6 +158,49 @@ theorem parse_print_canonical_http (l : Str) (s : HttpSigL) (h : parseHttpSigFul
 /-- the hypothesis is needed: `1:Host:,A:x` loses the nameless header -/
 example : (parseHttpSigFullL "1:Host:,A:x".toList).map printHttpSigL = some "1:Host:A:x".toList := by
   decide +kernel
+
+/-! ### which texts are accepted: the parsers against the declarative grammars -/
+
+/-- The full statement: `tcp::Signature::from_str` accepts exactly the lines of the TCP signature
+language `Spec.TcpLine` (a declarative description as concatenations of field spellings, written from
+the p0f format, not from the parser) and returns the value the line denotes.  **False on the current
+tree** (`kf_unknownKindOverflow_witness`): `?300` is accepted. -/
+def FullTcpGrammar : Prop := ∀ l s, parseTcpSigFull l = some s ↔ TcpLine l s
+
+/-- **Completeness** (no exclusion needed): every line of the language parses to the value it denotes —
+every spelling (leading zeros too), any number of options and quirks, also none. -/
+theorem tcp_grammar_complete (l : Str) (s : TcpSig) (h : TcpLine l s) : parseTcpSigFull l = some s :=
+  parseTcpSigFull_of_line h
+
+/-- **Soundness outside the finding**: whatever the parser accepts (and does not contain `?n`, n > 255) is a
+line of the language, denoting exactly the returned value — so text that is not a signature is rejected. -/
+theorem tcp_grammar_partial (l : Str) (s : TcpSig) (hk : ¬ Huginn.KF.C06.unknownKindOverflow l) :
+    parseTcpSigFull l = some s ↔ TcpLine l s :=
+  ⟨fun h => line_of_parseTcpSigFull h hk, parseTcpSigFull_of_line⟩
+
+/-- `*:64:0:*:*,0:?300::0` is accepted (as `?0`) although it is not a line of the language -/
+theorem kf_unknownKindOverflow_witness : ¬ FullTcpGrammar := fun h =>
+  overflow_not_line ((h overflowLine overflowValue).mp overflow_parses)
+
+/-- non-vacuity: the witness line is in the class; a non-canonical line with every field form is in the
+language (obtained through `tcp_grammar_partial` from the parser accepting it) -/
+example : Huginn.KF.C06.unknownKindOverflow overflowLine ∧
+    TcpLine "4:64+03:0:1460:mss*020,7:mss,eol+1,?12:df,0+:+".toList
+      ⟨.v4, .distance 64 3, 0, some 1460, .mss 20, some 7, [.mss, .eol 1, .unknown 12], [.df, .mustBeZero], .nonZero⟩ :=
+  ⟨by decide +kernel, (tcp_grammar_partial _ _ (by decide +kernel)).mp (by decide +kernel)⟩
+
+/-- **`http::Signature`: the parser accepts exactly the printed forms.**  A text is accepted (before the
+name filter) with value `raw` iff it is the printed form of `raw` and `raw` is something the parser can
+return (`RawOk`: version 0/1/*, header names over `[A-Za-z0-9-]`, values without `]`, both lists
+non-empty because the header parser also accepts the empty string). -/
+theorem http_grammar (l r : Str) (raw : HttpSigL) :
+    parseHttpSigRawL l = some (raw, r) ↔ r = [] ∧ l = printHttpSigL raw ∧ RawOk raw := by
+  constructor
+  · intro h
+    obtain ⟨e1, e2⟩ := parseHttpSigRawL_inv h
+    exact ⟨e1, e2.symm, rawOk_of_parse h⟩
+  · rintro ⟨rfl, rfl, hk⟩
+    exact parse_of_rawOk raw hk
 
 /-! ### the database loader -/
 
